@@ -1,9 +1,15 @@
-"""C07 -- E1 exploration, monitor selected by tag (see DESIGN.md section 4)."""
-from checks import e1
+"""C07 -- capacity contract and address stability: E1 monitor 'cap' over the vector matrix, plus the buffer hand-over rule
+for swap2 (the generalised swap) checked by the pair explorer of C13 on pairs that can exchange heap buffers."""
+from checks import c13, e1
 
 
 def run(ctx):
-    matrix = e1.quick_matrix() if ctx.tier == "quick" else e1.thorough_matrix()
-    matrix = [i for i in matrix if e1.relevant("C07", i)]
+    q = ctx.tier == "quick"
+    matrix = e1.quick_matrix() if q else e1.thorough_matrix()
     cov = e1.explore(ctx, matrix, ["C07"])
-    return ctx.finish("model_checking", cov, e1.ASSUME)
+    pairs = [c13.inst("vec32", "vec32", "NTR", L=4), c13.inst("sv2", "vec32", "TR", L=4), c13.inst("sv3_8", "sv5_16", "TC4", L=4),
+             c13.inst("vec8", "vec32", "TC4", L=2, big=[250, 255]), c13.inst("vec8", "vec8", "TC4", L=2, big=[254, 255])]
+    if not q:
+        pairs += [c13.inst("sv2", "sv2", "NTR", L=5), c13.inst("vec8", "sv3_8", "TR", L=3, big=[255]), c13.inst("sv5_16", "vec32", "NTR", L=5)]
+    cov2 = e1.explore(ctx, pairs, ["C07"], engine="E1s", eng=c13.ENG)
+    return ctx.finish("model_checking", e1.merge_cov(cov, cov2), e1.ASSUME)
